@@ -36,7 +36,7 @@ WATCHDOG = {"quick": 900, "thorough": 3300}
 WTESTS = {"groups": ['list_structure'], "tests": ['tests/test_goofit.py', 'tests/test_convert.py']}
 REQUIRED = {"enum:all-shapes-and-patterns": 1, "enum:permutations>=4": 100, "enum:leaf-not-in-event-raises": 10,
             **{f"structure:{f}{w}": 2 for f, w in A.STRUCTURES}, **{f"lineshape:{k}": 4 for k in A.LS_KINDS}, "topology:two-resonances": 4, "topology:cascade": 4,
-            "language:cpp": 10, "language:python": 10, "event:4-permutations": 2, "event:0": 2, "event:1": 2, "event:2": 2, "event:4": 2, "event:rearranged": 2, "event:particle-three-times(6-permutations)": 2, "event:identical-particles-not-adjacent": 2, "same-amplitudes-other-event-order-same-process": 2, "expanded-by-name": 2, "partial-line-referred-to-from>=2-places": 1,
+            "language:cpp": 10, "language:python": 10, "event:4-permutations": 2, "event:0": 2, "event:1": 2, "event:2": 2, "event:4": 2, "event:rearranged": 2, "event:particle-three-times(6-permutations)": 2, "event:identical-particles-not-adjacent": 2, "same-amplitudes-other-event-order-same-process": 2, "expanded-by-name": 2, "partial-line-referred-to-from>=2-places": 1, "two-body-vertex-written-in-reverse-order": 2,
             "C18.list_structure.equals_bruteforce": 1000}
 EXHAUSTIVE_NOTE = "(a) is exhaustive: all binary tree shapes with 2..4 leaves x all leaf labellings x all 256 event types over a 4-letter alphabet"
 ASSUMPTIONS = ["the mapping structure-key -> spin-factor kinds is the library's published table (input data)", "resonance-first ordering of cascade amplitudes (the only one the code supports)",
@@ -160,6 +160,8 @@ def check_file(ctx, model, style_seed, workload="gen"):
             for k in n.kids:
                 bare_uses(k, acc)
 
+    if any(getattr(ln["node"], "reversed_vertex", False) for ln in model["lines"]):
+        ctx.hit("two-body-vertex-written-in-reverse-order")
     uses = []
     for ln in model["lines"]:
         if ln["kind"] == "top":
